@@ -266,6 +266,33 @@ import weakref
 _HOLDERS = weakref.WeakKeyDictionary()
 
 
+class BusyLock(object):
+    """the session's write lock as the event loop sees it while other threads of the application keep sending: a blocking
+    acquire gets the lock (the other thread finishes its sendall), a non-blocking probe always finds it taken"""
+
+    def __init__(self):
+        self.held = False
+
+    def acquire(self, blocking=True, timeout=-1):
+        if not blocking:
+            return False
+        self.held = True
+        return True
+
+    def release(self):
+        self.held = False
+
+    def locked(self):
+        return True
+
+    def __enter__(self):
+        self.acquire()
+        return self
+
+    def __exit__(self, *a):
+        self.release()
+
+
 def run_impl(sc, url="ws://example.test/chat", ws_kwargs=None, check_alias=True):
     """Execute scenario on the real code. Returns Run (trace in .trace)."""
     import lomond.session as S
@@ -300,6 +327,11 @@ def run_impl(sc, url="ws://example.test/chat", ws_kwargs=None, check_alias=True)
         holder = {}
 
         class Sess(S.WebsocketSession):
+            def __init__(self, *a, **kw):
+                S.WebsocketSession.__init__(self, *a, **kw)
+                if holder["sc"].get("busy_lock"):
+                    self._lock = BusyLock()
+
             def _connect(self):
                 sc, run = holder["sc"], holder["run"]
                 how = sc.get("connect", "ok")
